@@ -99,7 +99,7 @@ class Report:
         n_viol = len(self.violations)
         cov["violation_signatures"] = [
             {"signature": jsonable(s), "occurrences": self._seen_sigs[json.dumps(jsonable(s), sort_keys=True)][0]}
-            for s, _ in self.violations[:20]
+            for s, _ in self.violations[:80]
         ]
         ev = {
             "property_id": self.prop,
